@@ -17,6 +17,12 @@ CLAIMED = {
             "table width (R3); carry/signed-carry/signed-borrow conditions equal the P-Code truth tables (R4); each arm is the apint primitive of its mnemonic with P-Code operand "
             "order (R5); operator traits delegate correctly (R6). A violated clause is a wrong folded value for some operand pair; the numeric behaviour of apint itself is trusted.",
             "3/C01", "apint::Int::is_positive == !is_negative (sign bit unset), read from apint 0.2 source"),
+    "C02": ("structural analysis of the interval transfer functions on normalised THIR terms: resolved call graph from each dispatch arm to the bit-vector primitives; DNF path conditions of every constant fold / truncated-bounds result; corner provenance of each constructed bound against the monotonicity table of its primitive; overflow-flag coverage; bound/hint crossing under negation; width argument of every Top result; stride provenance of results of non-injective primitives",
+            "Decides structural necessary conditions of soundness / well-formedness: dispatch to the primitives of the operation's mnemonic (R1); the generic arm folds only two single values, in operand order, else Top of the RESULT width (R2); "
+            "add/sub/mul pair the interval corners according to the monotonicity of the primitive, use overflow-checked primitives and test every overflow flag (R3); negation crosses bounds and hints and is guarded against MIN (R4); the un_op and cast "
+            "tables give Top of the right width / the right extension (R5, R6); subpiece passes low_byte/size to the right step and truncates only under its two guards (R7); a product that may collapse to one value gets stride 0 (R8; found one genuine defect, fixed). "
+            "That the bounds so computed contain every concrete result for every member, and the stride/hint arithmetic beyond these clauses, is numeric and NOT decided.",
+            "3/C02", ""),
     "C03": ("merge-implementation analysis on normalised THIR terms: per-field provenance of every merge result (both operands must reach each field through a join), join tables of the flat domains, delegation of merge_with to merge, strategy-by-strategy key/value flow of DomainMap",
             "Decides the structural half of 'merge over-approximates both operands': every value-carrying field of a merged DataDomain / State is computed from BOTH operands through that field's own join (R1, R2, R4); "
             "the flat domains' join tables send unequal operands to Top / keep the taint (R3); IntervalDomain::signed_merge re-validates both operands' widening hints (R3); each DomainMap merge strategy treats keys missing on one side as its documentation "
